@@ -82,6 +82,15 @@ Fixpoint nopoll (p : prog) : bool :=
   | Retry p q => false
   end.
 
+(* p always returns Done *)
+Fixpoint nofail (p : prog) : bool :=
+  match p with
+  | Skip => true | Poll => false | Fail => false
+  | Seq p q => nofail p && nofail q
+  | Try p q r => nofail q && nofail r
+  | Retry p q => nofail p
+  end.
+
 (* p never returns Done after one of its polls was late *)
 Fixpoint tight (p : prog) : bool :=
   match p with
@@ -97,28 +106,30 @@ Fixpoint lc (p : prog) : N :=
   | Skip => 0 | Poll => 1 | Fail => 0
   | Seq p q => if guard p then lc p else lc p + lc q
   | Try p q r => if guard p then lc p + lc q else lc p + N.max (lc q) (lc r)
-  | Retry p q => lc p + 1
+  | Retry p q => if nofail p then lc p else lc p + 1
   end.
 Fixpoint lb (p : prog) : N :=
   match p with
   | Skip => 0 | Poll => 1 | Fail => 0
-  | Seq p q => N.max (if tight p then lb p else lb p + lc q) (lb q)
-  | Try p q r => N.max (N.max (lb p + lc q) (lb q))
-                       (N.max (if tight p then 0 else lb p + lc r) (lb r))
-  | Retry p q => N.max (lb p + 1) (lb q)
+  | Seq p q => N.max (if tight p then lb p else lb p + lc q) (N.max (lb q) (lc q))
+  | Try p q r => N.max (N.max (lb p + lc q) (N.max (lb q) (lc q)))
+                       (N.max (if tight p then 0 else lb p + lc r) (N.max (lb r) (lc r)))
+  | Retry p q => if nofail p then lb p else N.max (lb p + 1) (N.max (lb q) (lc q))
   end.
+Definition lbc (p : prog) : N := N.max (lb p) (lc p).
 
 (* ---- the read, transcribed from ReadWithContext's call graph ---- *)
 
 (* one indirect object read from the file: model.object (read.go) =
-   buffer() [ob exit polls: buffer:2095 + DetectKeywordsWithContext], then
+   buffer() [1 + ob exit polls: buffer:2095 (the loop runs at least once) + DetectKeywordsWithContext], then
    model.ParseObjectContext [ok exit polls in processDictKeys, inside the Retry],
    then (stream dicts) loadStreamDict -> ensureIndirectStreamLength -> int64Object
    [op exit polls of the nested object read].  obig: "endobj" not inside the buffer (endInd < 0). *)
 Record fobj := mkfo { ob : nat; ok_ : nat; op : nat; obig : bool }.
 
+Definition buffer_polls (o : fobj) : prog := Seq Poll (pollsN (ob o)).
 Definition parse_obj (o : fobj) : prog :=
-  Seq (pollsN (ob o)) (Retry (pollsN (ok_ o)) (pollsN (ok_ o))).
+  Seq (buffer_polls o) (Retry (pollsN (ok_ o)) (pollsN (ok_ o))).
 
 (* read.go parseAndLoad: object + resolveObject, then loadStreamDict *)
 Definition parse_and_load (o : fobj) : prog := Seq (parse_obj o) (pollsN (op o)).
@@ -127,7 +138,7 @@ Definition parse_and_load (o : fobj) : prog := Seq (parse_obj o) (pollsN (op o))
    context's) when endInd >= 0; object() returns endInd = 0 when buffer() fails. *)
 Definition process_object (relaxed : bool) (o : fobj) : prog :=
   if relaxed then
-    Try (pollsN (ob o)) Skip
+    Try (buffer_polls o) Skip
         (if obig o then Seq (Retry (pollsN (ok_ o)) (pollsN (ok_ o))) (pollsN (op o))
          else Swallow (Seq (Retry (pollsN (ok_ o)) (pollsN (ok_ o))) (pollsN (op o))))
   else parse_and_load o.
@@ -214,4 +225,4 @@ Definition has_stream (l : list section) : bool :=
 Definition repair_swallows (s : shape) : bool := s_relaxed s && has_stream (s_sections s).
 
 (* "number of enclosing stages": the late-poll bound outside the defect class *)
-Definition stage_bound : N := 4.
+Definition stage_bound : N := 5.
